@@ -161,6 +161,10 @@ func (s *sharedEntryAttributes) toXmlInternal(parent *etree.Element, onlyNewOrUp
 				})
 			}
 
+			// childs that belong to a choice case that is not the active one must not be rendered, like in
+			// the json and proto views. Only their deletion is of interest.
+			activeChilds := s.filterActiveChoiceCaseChilds()
+
 			// iterate through all the childs
 			for _, k := range keys {
 
@@ -178,6 +182,9 @@ func (s *sharedEntryAttributes) toXmlInternal(parent *etree.Element, onlyNewOrUp
 				child, exists := s.childs.GetEntry(k)
 				if !exists {
 					return false, fmt.Errorf("child %s does not exist for %s", k, strings.Join(s.Path(), "/"))
+				}
+				if _, isActive := activeChilds[k]; !isActive && !child.shouldDelete() {
+					continue
 				}
 				doAdd, err := child.toXmlInternal(newElem, onlyNewOrUpdated, honorNamespace, operationWithNamespace, useOperationRemove)
 				if err != nil {
